@@ -114,6 +114,7 @@ class udp(packet_base):
             self.next = vxlan(raw=raw[udp.MIN_LEN:],prev=self)
         elif dlen < self.len:
             self.msg('(udp parse) warning UDP packet data shorter than UDP len: %u < %u' % (dlen, self.len))
+            self.payload = raw[udp.MIN_LEN:]
             return
         else:
             self.payload = raw[udp.MIN_LEN:]
